@@ -1814,6 +1814,13 @@ def fc2(F, R):
             n += 1
             a = fn.term_of_operand(t["args"][2], b)
             sa = strip_refs(a)
+            for _k in range(3):         # `let first = dir_entry.cluster; free_cluster_chain(.., first)`
+                if sa[0] == "var":
+                    ds_ = var_def_terms(fn, sa[1])
+                    if len(ds_) != 1:
+                        break
+                    a = ds_[0]
+                    sa = strip_refs(a)
             is_cluster_field = sa[0] == "place" and [e for e in sa[2] if isinstance(e, str) and e != "*"][-1:] == ["cluster"]
             through_dir_table = has_sub(a, lambda q: q[0] == "place" and "open_dirs" in [e for e in q[2] if isinstance(e, str)]) and not has_sub(a, lambda q: q[0] == "call" and q[1] and path_matches(q[1], "FatVolume::find_directory_entry"))
             ok = is_cluster_field and not through_dir_table and derives_from_call(fn, a, ("FatVolume::find_directory_entry",))
